@@ -124,6 +124,7 @@ type Solver struct {
 	timeoutS int
 	axioms   []*Term
 	mu       sync.Mutex
+	renderMu sync.Mutex
 	queries  int
 	totalMs  int64
 	bySolver map[string]int
@@ -139,6 +140,9 @@ type prepared struct {
 // prepare renders the queries of one obligation (sequential: term construction is not thread-safe).
 func (s *Solver) prepare(o *Obligation) *prepared {
 	p := &prepared{o: o}
+	if o.Result != "" {
+		return p // decided without the solver (enumeration)
+	}
 	if o.Unsupp != "" {
 		o.Result = "unsupported"
 		return p
@@ -200,20 +204,129 @@ func (s *Solver) discharge(p *prepared, idx int) {
 }
 
 func (s *Solver) run(obls []*Obligation) {
-	preps := make([]*prepared, len(obls))
-	for i, o := range obls {
-		preps[i] = s.prepare(o)
+	// 1. group instances of the same obligation and try them as one query: OR_i (pc_i and not goal_i) unsat
+	type group struct {
+		members []*Obligation
+		text    string
+	}
+	byName := map[string][]*Obligation{}
+	var names []string
+	for _, o := range obls {
+		if o.Result != "" || o.Unsupp != "" || o.Goal == nil {
+			continue
+		}
+		if _, ok := byName[o.Name]; !ok {
+			names = append(names, o.Name)
+		}
+		byName[o.Name] = append(byName[o.Name], o)
+	}
+	var groups []*group
+	for _, n := range names {
+		ms := byName[n]
+		if len(ms) < 2 {
+			continue
+		}
+		for i := 0; i < len(ms); i += 48 {
+			j := i + 48
+			if j > len(ms) {
+				j = len(ms)
+			}
+			g := &group{members: ms[i:j]}
+			var alts []*Term
+			for _, o := range g.members {
+				alts = append(alts, And(append(append([]*Term{}, o.PC...), Not(o.Goal))...))
+			}
+			q := &Query{Name: n, Axioms: s.axioms, Asserts: []*Term{Or(alts...)}}
+			g.text = fmt.Sprintf("; obligation %s: %d path instances as one query\n", n, len(g.members)) + q.SMT(false)
+			groups = append(groups, g)
+		}
+	}
+	dbg := os.Getenv("GOVC_DEBUG") != ""
+	t0 := time.Now()
+	if dbg {
+		fmt.Fprintf(os.Stderr, "[govc] rendered %d grouped queries in %.1fs\n", len(groups), time.Since(t0).Seconds())
 	}
 	var wg sync.WaitGroup
 	sem := make(chan struct{}, 16)
-	for i, p := range preps {
+	for gi, g := range groups {
 		wg.Add(1)
 		sem <- struct{}{}
-		go func(i int, p *prepared) {
+		go func(gi int, g *group) {
 			defer wg.Done()
 			defer func() { <-sem }()
-			s.discharge(p, i)
-		}(i, p)
+			r := solveQuery(g.text, s.dir, fmt.Sprintf("g%05d", gi), 3)
+			s.mu.Lock()
+			s.queries++
+			s.totalMs += r.ms
+			s.bySolver[r.solver]++
+			s.mu.Unlock()
+			if r.answer == "unsat" {
+				for _, o := range g.members {
+					o.Result, o.Solver = "unsat", r.solver+"(grouped)"
+					o.Ms = r.ms / int64(len(g.members))
+				}
+			}
+		}(gi, g)
+	}
+	wg.Wait()
+	if dbg {
+		n := 0
+		for _, o := range obls {
+			if o.Result == "" {
+				n++
+			}
+		}
+		fmt.Fprintf(os.Stderr, "[govc] grouped stage done at %.1fs; %d instances left\n", time.Since(t0).Seconds(), n)
+	}
+	// 2. everything still undecided: one query per instance and conjunct
+	preps := make([]*prepared, len(obls))
+	for i, o := range obls {
+		preps[i] = &prepared{o: o} // rendered lazily (under renderMu) when the instance is actually tried
+	}
+	if dbg {
+		fmt.Fprintf(os.Stderr, "[govc] per-instance queries rendered at %.1fs\n", time.Since(t0).Seconds())
+	}
+	// instances of one obligation are tried in order; after the first failure the remaining
+	// siblings are not run (the obligation has failed anyway; one counterexample is what is reported)
+	byObl := map[string][]int{}
+	var order []string
+	for i, p := range preps {
+		n := p.o.Name
+		if _, ok := byObl[n]; !ok {
+			order = append(order, n)
+		}
+		byObl[n] = append(byObl[n], i)
+	}
+	for _, n := range order {
+		idxs := byObl[n]
+		wg.Add(1)
+		sem <- struct{}{}
+		go func(idxs []int) {
+			defer wg.Done()
+			defer func() { <-sem }()
+			failed := false
+			for _, i := range idxs {
+				p := preps[i]
+				if p.o.Result != "" {
+					if p.o.Result != "unsat" {
+						failed = true
+					}
+					continue
+				}
+				if failed {
+					p.o.Result = "not-run"
+					p.o.Unsupp = "not run: another path instance of this obligation already failed"
+					continue
+				}
+				s.renderMu.Lock()
+				rp := s.prepare(p.o)
+				s.renderMu.Unlock()
+				s.discharge(rp, i)
+				if p.o.Result != "unsat" {
+					failed = true
+				}
+			}
+		}(idxs)
 	}
 	wg.Wait()
 }
